@@ -298,12 +298,20 @@ def bytesum_source(F, A, t):
     if t[0] == "call" and "Iterator>::fold" in str(t[1]) and len(t[2]) == 3 and t[2][1] == ("c", 0):
         it = t[2][0]
         clo = t[2][2]
-        if it[0] == "call" and cn(it[1]) == "core::slice::iter" and clo[0] == "aggr" and clo[1][0] == "closure":
-            ci = [c for k, c in F.insts.items() if c.get("path") == clo[1][1]]
-            if len(ci) >= 1:
-                r = N(an.of(F, ci[0]).ret()[0])
-                if r == ("wrap", "Add", (arg(2), ("deref", arg(3))), "u8"):
-                    return it[2][0]
+        byval = False
+        if it[0] == "call" and len(it[2]) == 1 and ("Iterator>::copied" in str(it[1]) or "Iterator>::cloned" in str(it[1])) and "slice::iter::Iter<" in str(it[1]):
+            it = it[2][0]          # items by value (u8 is Copy: the same bytes)
+            byval = True
+        if it[0] == "call" and cn(it[1]) == "core::slice::iter":
+            item = arg(3) if byval else ("deref", arg(3))
+            if clo[0] == "aggr" and clo[1][0] == "closure":
+                ci = [c for k, c in F.insts.items() if c.get("path") == clo[1][1]]
+                if len(ci) >= 1:
+                    r = N(an.of(F, ci[0]).ret()[0])
+                    if r in (("wrap", "Add", (arg(2), item), "u8"), ("wrap", "Add", (item, arg(2)), "u8")):
+                        return it[2][0]
+            if byval and clo == ("fn", "core::num::<impl u8>::wrapping_add"):
+                return it[2][0]    # `fold(0, u8::wrapping_add)`: acc.wrapping_add(byte)
         return None
     if t[0] == "opq" and len(t) > 3 and t[1] == "phi":
         b = A.body
